@@ -16,7 +16,7 @@ func c12World(tp *Tape, env *Env) (*Plan, *Violation) {
 	cfg := &GenCfg{
 		MaxNodes: 3, MaxStmts: 5, MaxDepth: 3, MaxTotal: 26,
 		WLine: 7, WOptions: 6, WIf: 4, WSet: 4, WJump: 1, WJumpE: 0, WStop: 5, WCall: 3, WCommand: 3,
-		NVars: [3]int{1, 1, 1}, Probes: true, ExprDepth: 1, InlinePct: 15, CondPct: 20, StopArgs: true, ExprOnlyLines: true,
+		NVars: [3]int{1, 1, 1}, Probes: true, ExprDepth: 1, InlinePct: 15, CondPct: 20, StopArgs: true, ExprOnlyLines: true, NoStringSelfGrowth: true,
 	}
 	if tp.Chance(40, "nocmd") {
 		cfg.WCommand = 0
